@@ -451,6 +451,18 @@ def rule_mro(chk):
             sites = [s for h in lookup for s in ctx.cg.sites[h] if g in s.repo_targets() and s.call is not None]
             ok_arg = bool(sites) and all(len(s.call.args) > idx and unparse(s.call.args[idx]) in cls_exprs for s in sites if s.func is gf) \
                 and any(s.func is gf for s in sites)
+        if not ok_arg and g is not gf:
+            # helper that receives the exception itself and takes its class inside
+            inner = None
+            if isinstance(arg, ast.Attribute) and arg.attr == "__class__" and isinstance(arg.value, ast.Name):
+                inner = arg.value.id
+            elif isinstance(arg, ast.Call) and isinstance(arg.func, ast.Name) and arg.func.id == "type" and len(arg.args) == 1 and isinstance(arg.args[0], ast.Name):
+                inner = arg.args[0].id
+            if inner in g.pos_params and not stores_to_name(g, inner):
+                idx = g.pos_params.index(inner) - (1 if g.cls is not None else 0)
+                sites = [s for h in lookup for s in ctx.cg.sites[h] if g in s.repo_targets() and s.call is not None]
+                ok_arg = any(s.func is gf for s in sites) and all(len(s.call.args) > idx and isinstance(s.call.args[idx], ast.Name) and s.call.args[idx].id == ename
+                                                                   for s in sites if s.func is gf) and not stores_to_name(gf, ename)
         chk.req(ok_arg, "C03.mro", "get_fields_for_exception:walks-the-MRO-in-order", chk.where(g, head.lineno),
                 good="iterates the MRO of %s in order" % txt, fail="extractor lookup iterates the MRO of %s, which is not the class of the exception that escaped (nearest class must win)" % txt)
         lv = head.ast.target.id if isinstance(head.ast.target, ast.Name) else None
